@@ -14,7 +14,7 @@ use x509_parser::prelude::*;
 
 #[derive(Clone, Debug)]
 pub enum Sc {
-    /// SAN list index x validity mode (0 Identity::self_signed, 1..=5 validity_days(0,1,13,14,15), 6 explicit window, 7 offset_from_not_before(36 h))
+    /// SAN list index x validity mode (0 Identity::self_signed, 1..=5 validity_days(0,1,13,14,15), 6 explicit window, 7 offset_from_not_before(36 h), 8..=10 validity_days after a not_before 3 days ago / 1 hour ago / tomorrow)
     Generate { sans: usize, mode: u8 },
     /// PEM round trip: 0 certificate, 1 private key, 2.. chain of length (kind-2)
     Pem { kind: u8 },
@@ -77,6 +77,10 @@ fn generate(sans_idx: usize, mode: u8) -> Result<String, String> {
             SelfSignedIdentityBuilder::new().subject_alt_names(&sans).from_now_utc().validity_days(days).build()
         }
         6 => Identity::self_signed_builder().subject_alt_names(&sans).validity_period(window.0, window.1).build(),
+        // validity_days counts from the builder's not_before, whatever that is: back-dated and post-dated certificates
+        8 => SelfSignedIdentityBuilder::new().subject_alt_names(&sans).not_before(before - Duration::days(3)).validity_days(14).build(),
+        9 => SelfSignedIdentityBuilder::new().subject_alt_names(&sans).not_before(before - Duration::hours(1)).validity_days(1).build(),
+        10 => SelfSignedIdentityBuilder::new().subject_alt_names(&sans).not_before(before + Duration::days(1)).validity_days(2).build(),
         _ => SelfSignedIdentityBuilder::new().subject_alt_names(&sans).not_before(before - Duration::minutes(5)).offset_from_not_before(Duration::hours(36)).build(),
     };
     let after = OffsetDateTime::now_utc();
@@ -134,6 +138,9 @@ fn generate(sans_idx: usize, mode: u8) -> Result<String, String> {
         0 => (Some((before.unix_timestamp(), after.unix_timestamp())), 14 * 86400),
         1..=5 => (Some((before.unix_timestamp(), after.unix_timestamp())), [0i64, 1, 13, 14, 15][(mode - 1) as usize] * 86400),
         6 => (Some((window.0.unix_timestamp(), window.0.unix_timestamp())), (window.1 - window.0).whole_seconds()),
+        8 => (Some(((before - Duration::days(3)).unix_timestamp(), (before - Duration::days(3)).unix_timestamp())), 14 * 86400),
+        9 => (Some(((before - Duration::hours(1)).unix_timestamp(), (before - Duration::hours(1)).unix_timestamp())), 86400),
+        10 => (Some(((before + Duration::days(1)).unix_timestamp(), (before + Duration::days(1)).unix_timestamp())), 2 * 86400),
         _ => (Some(((before - Duration::minutes(5)).unix_timestamp(), (before - Duration::minutes(5)).unix_timestamp())), 36 * 3600),
     };
     if let Some((lo, hi)) = want_nb {
@@ -150,7 +157,7 @@ fn generate(sans_idx: usize, mode: u8) -> Result<String, String> {
     }
     let now = OffsetDateTime::now_utc().unix_timestamp();
     let valid_now = nb <= now && now <= na;
-    if mode != 1 && !valid_now {
+    if mode != 1 && mode != 10 && !valid_now {
         return Err(format!("certificate not valid now: nb={nb} now={now} na={na}"));
     }
     // accepted by hash pinning with its own hash (when short-lived and valid now)
@@ -199,7 +206,17 @@ fn pem(kind: u8) -> Result<String, String> {
                         return Err(format!("store_pemfile returned before the data reached the file: {} of {} bytes present (round {round})", now.len(), c.to_pem().len()));
                     }
                 }
+                // the path already holds an older chain file: storing one certificate replaces it
+                let older = CertificateChain::new(vec![
+                    Certificate::from_der(some_identity(30).certificate_chain().as_slice()[0].der().to_vec()).unwrap(),
+                    Certificate::from_der(some_identity(31).certificate_chain().as_slice()[0].der().to_vec()).unwrap(),
+                ]);
+                older.store_pemfile(&p).await.map_err(|e| format!("store (older file): {e:?}"))?;
                 c.store_pemfile(&p).await.map_err(|e| format!("store: {e:?}"))?;
+                let as_chain = CertificateChain::load_pemfile(&p).await.map_err(|e| format!("load as chain: {e:?}"))?;
+                if as_chain.as_slice().len() != 1 || as_chain.as_slice()[0].der() != c.der() {
+                    return Err(format!("one certificate stored over a file that held two: {} certificates loaded", as_chain.as_slice().len()));
+                }
                 let back = Certificate::load_pemfile(&p).await.map_err(|e| format!("load: {e:?}"))?;
                 if back.der() != c.der() || back.hash() != c.hash() {
                     return Err("certificate changed by the PEM round trip".to_string());
@@ -214,6 +231,8 @@ fn pem(kind: u8) -> Result<String, String> {
                 let id = some_identity(1);
                 let k = id.private_key();
                 let p = dir.join("key.pem");
+                // the path already holds an older, longer file
+                std::fs::write(&p, format!("{}{}", some_identity(32).private_key().to_secret_pem(), "# trailing notes of the previous owner\n".repeat(8))).map_err(|e| format!("{e:?}"))?;
                 k.store_secret_pemfile(&p).await.map_err(|e| format!("store: {e:?}"))?;
                 let back = PrivateKey::load_pemfile(&p).await.map_err(|e| format!("load: {e:?}"))?;
                 if back.secret_der() != k.secret_der() {
@@ -249,7 +268,14 @@ fn pem(kind: u8) -> Result<String, String> {
                         return Err(format!("store_pemfile returned before the data reached the file: {} of {} bytes present (round {round})", now.len(), expected.len()));
                     }
                 }
+                // the path already holds an older, longer file: storing replaces it, nothing of it survives
+                let older: Vec<Certificate> = (0..len + 2).map(|i| Certificate::from_der(some_identity(40 + i).certificate_chain().as_slice()[0].der().to_vec()).unwrap()).collect();
+                CertificateChain::new(older).store_pemfile(&p).await.map_err(|e| format!("store (older file): {e:?}"))?;
                 chain.store_pemfile(&p).await.map_err(|e| format!("store: {e:?}"))?;
+                let on_disk = std::fs::read_to_string(&p).map_err(|e| format!("{e:?}"))?;
+                if on_disk != expected {
+                    return Err(format!("chain of {len} stored over a file that held {} certificates: the file has {} bytes, the chain's PEM has {}", len + 2, on_disk.len(), expected.len()));
+                }
                 let back = CertificateChain::load_pemfile(&p).await.map_err(|e| format!("load: {e:?}"))?;
                 let got: Vec<Vec<u8>> = back.as_slice().iter().map(|c| c.der().to_vec()).collect();
                 if got != ders {
@@ -421,7 +447,7 @@ pub fn scenarios(tier: Tier) -> Vec<Sc> {
     let thorough = tier >= Tier::Thorough;
     let mut out = vec![];
     for s in 0..san_lists().len() {
-        for mode in 0..8u8 {
+        for mode in 0..11u8 {
             out.push(Sc::Generate { sans: s, mode });
         }
     }
@@ -486,7 +512,7 @@ pub fn run_check(args: &Args) -> i32 {
     let rep = Report::new(
         args,
         "exploration",
-        "complete grids: 11 SAN lists (empty, DNS, wildcard, IPv4, IPv6, mixed, 30 names, duplicates, non-ASCII = must be refused) x 8 validity settings (Identity::self_signed, validity_days 0/1/13/14/15, explicit window, offset_from_not_before) with the generated certificate re-parsed by x509-parser; PEM store->load for certificate, key, identity and chains of length 0,1,2,3,5; digests with every uniform byte value and every position x 11 boundary values through both textual formats, FromStr and Display; every truncation and single-character substitution (12 characters) of a valid digest text in both formats plus wrong element counts / out-of-range elements; truncations and substitutions of PEM files and truncations / bit flips of DER; distinct by construction, all non-trivial",
+        "complete grids: 11 SAN lists (empty, DNS, wildcard, IPv4, IPv6, mixed, 30 names, duplicates, non-ASCII = must be refused) x 11 validity settings (Identity::self_signed, validity_days 0/1/13/14/15, explicit window, offset_from_not_before, validity_days counted from a back-dated / post-dated not_before) with the generated certificate re-parsed by x509-parser; PEM store->load for certificate, key, identity and chains of length 0,1,2,3,5; digests with every uniform byte value and every position x 11 boundary values through both textual formats, FromStr and Display; every truncation and single-character substitution (12 characters) of a valid digest text in both formats plus wrong element counts / out-of-range elements; truncations and substitutions of PEM files and truncations / bit flips of DER; distinct by construction, all non-trivial",
     );
     rep.assume("this check reads the wall clock and the file system (temporary files under /verif/target); no scheduling is involved");
     let scs = scenarios(args.tier);
